@@ -79,9 +79,12 @@ def _pair(ctx, akind, bkind, how, ylo, yhi, same=False):
         nb = ctx.dt.datetime(b.year, b.month, b.day, b.hour, b.minute, b.second, b.microsecond,
                              tzinfo=b.tzinfo, fold=b.fold)
         r = nb - a                                    # DateTime.__rsub__
-        ctx.claim("same length as the native subtraction",
-                  td_us(ctx, r) == td_us(ctx, nb - ctx.dt.datetime(a.year, a.month, a.day, a.hour, a.minute, a.second,
-                                                                   a.microsecond, tzinfo=a.tzinfo, fold=a.fold)))
+        nref = td_us(ctx, nb - ctx.dt.datetime(a.year, a.month, a.day, a.hour, a.minute, a.second,
+                                               a.microsecond, tzinfo=a.tzinfo, fold=a.fold))
+        # two natives sharing one tzinfo are subtracted on their wall clocks by the standard library; where that is not
+        # the elapsed time (a transition in between) the statement's two clauses conflict and the elapsed time is claimed
+        ctx.claim("same length as the native subtraction (wherever that is the elapsed time)",
+                  IMPLIES(nref == delta, td_us(ctx, r) == nref))
     elif how == "sub_native":
         na = ctx.dt.datetime(a.year, a.month, a.day, a.hour, a.minute, a.second, a.microsecond,
                              tzinfo=a.tzinfo, fold=a.fold)
